@@ -135,6 +135,14 @@ pub fn gen_pcm(kind: &str, rng: &mut Rng, channels: usize, bps: u32, frames: usi
                     let (g, pct, pos) = (it.next().unwrap_or(16).max(1), it.next().unwrap_or(85), it.next().unwrap_or(0));
                     if (i as i64) % g == pos { lo } else { rng.range(((lo as i128 * pct as i128) / 100) as i64, ((hi as i128 * pct as i128) / 100) as i64) }
                 }
+                // "altdecay:<g>": every g PCM frames a decaying burst of alternating sign (a * (-r)^n): a one-tap linear predictor follows it
+                // almost exactly, the fixed polynomial predictors do not - also on the shortest blocks
+                k if k.starts_with("altdecay:") => {
+                    let g: usize = k[9..].parse().unwrap_or(16).max(1);
+                    let a = (hi as f64) * (0.3 - 0.02 * c as f64);
+                    let r = -0.8 + 0.03 * c as f64;
+                    ((a * r.powi((i % g) as i32)) as i64 + (i / g) as i64 % 3).clamp(lo, hi)
+                }
                 "noise" => rng.range(lo, hi),
                 // a quiet high-pitched tone with a little noise: linear prediction does far better than the fixed predictors
                 "hitone" => {
